@@ -10,6 +10,7 @@ import (
 	"fmt"
 	"sort"
 	"strings"
+	"time"
 
 	"github.com/itchyny/gojq"
 	"k8s.io/apimachinery/pkg/apis/meta/v1/unstructured"
@@ -36,6 +37,8 @@ type riObs struct {
 }
 
 type Observer struct {
+	StopSeq   int64 // seq at which TaskQueueSet.WaitStopWithTimeout was entered (= TaskQueues.Stop() returned)
+	StopAt    time.Duration
 	e         *Env
 	ris       map[any]*riObs
 	Order     []*riObs
@@ -60,6 +63,11 @@ func (o *Observer) ri(ptr any, mon, ns, name any) *riObs {
 
 func (o *Observer) observe(name string, args ...any) {
 	switch name {
+	case "tqs.waitstop":
+		if o.StopSeq == 0 {
+			o.StopSeq = o.e.Seq()
+			o.StopAt = o.e.Since()
+		}
 	case "ri.load":
 		r := o.ri(args[0], args[1], args[2], args[3])
 		o.pendingL1 = r
